@@ -447,6 +447,28 @@ class mol_filter:
     }
 
 
+_REPLAY_SORT = '''
+import numpy as np
+from scipy.spatial.transform import Rotation
+from acryo import Molecules
+key = [1.0, 3.0, 0.0, 2.0, 4.0]                       # its sorting permutation has a 4-cycle (not its own inverse)
+pos = np.arange(15, dtype=np.float32).reshape(5, 3) * 1.5
+rot = Rotation.from_rotvec([[0.1 * (i + 1), 0.05 * i, -0.2 * i] for i in range(5)])
+mol = Molecules(pos, rot, features={"f0": key, "id": list(range(5))})
+ok = True
+for desc in (False, True):
+    out = mol.sort("f0", descending=desc)
+    ids = out.features["id"].to_list()
+    good = sorted(ids) == list(range(5)) and np.allclose(out.pos, pos[ids]) and \
+        np.allclose(out.rotator.as_matrix(), rot.as_matrix()[ids], atol=1e-5) and \
+        out.features["f0"].to_list() == sorted(key, reverse=desc)
+    print("descending" if desc else "ascending", ": rows", ids, "| positions, orientations and features of each row together:", bool(good))
+    ok = ok and good
+print("clause holds natively:", ok)
+print("CONFIRMED" if not ok else "NOT-CONFIRMED"); sys.exit(1 if not ok else 0)
+'''
+
+
 @contract("acryo.molecules.core:Molecules.sort", props=["C12"])
 class mol_sort:
     """a permutation of the molecules (polars' sort is trusted to return a bijective row map ordered by the key): row j
@@ -456,6 +478,7 @@ class mol_sort:
     helpers = _HR
     native_helpers = _NHR
     imports = _IMPORTS
+    replay = staticmethod(lambda ob, meta, model: _REPLAY_SORT)
     native_call = "args['self'].sort(args['by'], descending=args['descending'])"
     native = {"count": "len(result) == len(self)", "invariant": "_native_invariant(result)",
               "rows_stay_together": "_native_rows_subset(result, self)",
